@@ -25,6 +25,7 @@ func verifObj() types.Object {
 // value-string bounds (bytes); the thorough tier raises them
 var (
 	VerifC12StepMax  = 5
+	VerifC12NameTail = 4
 	VerifC12ChainMax = 3
 )
 
@@ -381,5 +382,43 @@ func VerifHarness_C12_WrongLevel() {
 		_, err := parseMethod(ctx, c, verifObj(), RawLines{Location: "conv.go:3", Lines: []string{k + " " + rest}})
 		verifReach("converter-only-on-method")
 		verifAssert("converter-only-setting-on-method-is-error", err != nil)
+	}
+}
+
+var verifCommonKeys = []string{"wrapErrors", "wrapErrorsUsing", "ignoreUnexported", "update:ignoreZeroValueField", "update:ignoreZeroValueField:basic",
+	"update:ignoreZeroValueField:struct", "update:ignoreZeroValueField:nillable", "default:update", "matchIgnoreCase", "ignoreMissing", "skipCopySameType",
+	"useZeroValueOnPointerInconsistency", "useUnderlyingTypeMethods", "enum", "arg:context:regex", "enum:unknown"}
+
+var verifNamePrefixes = []string{"", "output:", "enum:", "arg:", "arg:context:", "update:", "update:ignoreZeroValueField:", "default:", "struct:", "wrapErrors"}
+
+// VerifHarness_C12_UnknownName: a line whose setting name is none of the documented ones - however close it is
+// to one (a known prefix followed by arbitrary bytes) - is an error on the converter and on a method.
+func VerifHarness_C12_UnknownName() {
+	prefix := verifNamePrefixes[nondetChoice("prefix", len(verifNamePrefixes))]
+	tail := nondetString("tail", VerifC12NameTail)
+	for i := 0; i < len(tail); i++ {
+		verifAssume(!verifSpace(tail[i]) && tail[i] != 0)
+	}
+	name := prefix + tail
+	for _, k := range verifCommonKeys {
+		verifAssume(name != k)
+	}
+	ctx := &context{WorkDir: "/work"}
+	c := &Converter{ConverterConfig: DefaultConfigInterface, Location: "conv.go:1", FileName: "/work/in.go", Package: "example.org/in"}
+	if nondetChoice("level", 2) == 0 {
+		for _, k := range verifConverterOnly {
+			verifAssume(name != k)
+		}
+		verifAssume(name != "converter" && name != "variables")
+		err := parseConverterLines(ctx, c, "conv", RawLines{Location: "conv.go:1", Lines: []string{name + " x"}})
+		verifReach("converter-level")
+		verifAssert("unknown-name-on-converter-is-error", err != nil)
+	} else {
+		for _, k := range verifMethodOnly {
+			verifAssume(name != k)
+		}
+		_, err := parseMethod(ctx, c, verifObj(), RawLines{Location: "conv.go:3", Lines: []string{name + " x"}})
+		verifReach("method-level")
+		verifAssert("unknown-name-on-method-is-error", err != nil)
 	}
 }
